@@ -584,3 +584,49 @@ Proof.
     - split; [exact Tl|reflexivity]. }
   destruct ML as [ML1 ML2]. rewrite ML1, ML2. cbn [negb]. now rewrite andb_true_r.
 Qed.
+
+(** ** ids by name *)
+Lemma map_id_unlisted m id : (forall v, ~ In (id, v) m) -> map_id m id = id.
+Proof.
+  induction m as [|[k v] m IH]; intros H; [reflexivity|]. cbn [map_id].
+  destruct (k =? id) eqn:E.
+  - apply Z.eqb_eq in E. subst k. exfalso. apply (H v). now left.
+  - apply IH. intros v' Hin. apply (H v'). now right.
+Qed.
+
+Lemma map_id_first m id v : NoDup (map fst m) -> In (id, v) m -> map_id m id = v.
+Proof.
+  induction m as [|[k w] m IH]; intros ND Hin; [destruct Hin|]. cbn [map_id].
+  inversion ND as [|? ? Hnot ND']; subst.
+  destruct Hin as [E|Hin].
+  - injection E as -> ->. now rewrite Z.eqb_refl.
+  - destruct (k =? id) eqn:E.
+    + apply Z.eqb_eq in E. subst k. exfalso. apply Hnot. change id with (fst (id, v)). now apply in_map.
+    + now apply IH.
+Qed.
+
+Lemma id_map_of_known lookup ids id name l :
+  NoDup (map fst ids) -> In (id, name) ids -> lookup name = Some l ->
+  map_id (id_map_of lookup ids) id = l.
+Proof.
+  intros ND Hin Hl. apply map_id_first.
+  - unfold id_map_of. rewrite map_map. cbn [fst]. exact ND.
+  - unfold id_map_of. apply in_map_iff. exists (id, name). cbn [fst snd]. rewrite Hl. auto.
+Qed.
+
+Lemma id_map_of_unknown_name lookup ids id name :
+  NoDup (map fst ids) -> In (id, name) ids -> lookup name = None ->
+  map_id (id_map_of lookup ids) id = id.
+Proof.
+  intros ND Hin Hl. apply map_id_first.
+  - unfold id_map_of. rewrite map_map. cbn [fst]. exact ND.
+  - unfold id_map_of. apply in_map_iff. exists (id, name). cbn [fst snd]. rewrite Hl. auto.
+Qed.
+
+Lemma id_map_of_unlisted lookup ids id :
+  (forall name, ~ In (id, name) ids) -> map_id (id_map_of lookup ids) id = id.
+Proof.
+  intros H. apply map_id_unlisted. intros v Hin. unfold id_map_of in Hin.
+  apply in_map_iff in Hin. destruct Hin as [[k nm] [E Hin]]. cbn [fst snd] in E. injection E as -> _.
+  exact (H nm Hin).
+Qed.
